@@ -172,7 +172,11 @@ def run_case(c):
         info = {"N": N, "m": m, "lower": c["lower"], "upper": c["upper"], "built_by_a_solver": via}
         s0 = int(rng.integers(0, max(1, n - c["W"])))
         e0 = min(n - 1, s0 + c["W"])
-        cs = box_cells(ev, [(i + float(rng.random())) / n for i in range(s0, e0 + 1)], lo, side, m, gtol, viol, info)
+        def inside(i):
+            # a random point of subinterval i; (i + u) / n may round up into subinterval i + 1 when u is within 2^-13 of 1 at N*m = 40..50
+            x = (i + float(rng.random())) / n
+            return x if i / n <= x < (i + 1) / n else i / n
+        cs = box_cells(ev, [inside(i) for i in range(s0, e0 + 1)], lo, side, m, gtol, viol, info)
         for k in range(len(cs) - 1):
             check_adjacent(cs[k], cs[k + 1], dict(info, i=s0 + k), viol)
         n2 = n << N
